@@ -263,7 +263,10 @@ def _run_total(case):
             pass  # e.g. row-count contradiction for this instance: a rejected call is part of the history
         other = make_agg(spec, H.shape[0], H.dtype)  # another instance of the same class in between
         if other is not None:
-            _call(other, H, hseed)
+            try:
+                _call(other, H, hseed)
+            except Exception:
+                pass  # totality on H is judged by H's own case
     if case.get("bad_hist"):
         B = J.clone()
         B[0, 0] = float("nan")
@@ -470,15 +473,15 @@ def _run_deg0(case):
         return {"ok": True, "sig": sig, "nontrivial": False, "note": "J or tJ outside the stated range"}
     if pow2 and not torch.equal(tJ.double(), J.double() * t):
         return {"ok": True, "sig": sig, "nontrivial": False, "note": "tJ not exact (subnormal)"}
-    tol = _deg0_tolerance(spec, agg, J, tJ, t, pow2, seed)
-    if tol is None:
-        return {"ok": True, "sig": sig, "nontrivial": False, "note": "outside the clause"}
     try:
         r = _call(agg, J, seed)
         rt = _call(make_agg(spec, m, J.dtype), tJ, seed)
     except Exception as e:
         return fail("C11.finite", f"{spec['name']} raised {type(e).__name__}: {str(e)[:120]}", sig, True,
                     observed="exception", expected="finite vector")
+    tol = _deg0_tolerance(spec, agg, J, tJ, t, pow2, seed)
+    if tol is None:
+        return {"ok": True, "sig": sig, "nontrivial": False, "note": "outside the clause"}
     diff = float((rt.double() - t * r.double()).abs().max())
     nontrivial = bool((J != 0).any()) and bool((r != 0).any())
     if not (diff <= tol):
